@@ -134,3 +134,19 @@ Definition test_bit_at (t : list Z) (p : Z) : bool :=
 Definition set_bits (locs : list Z) (data : list Z) : list Z := fold_left set_bit_at locs data.
 Definition clear_bits (locs : list Z) (data : list Z) : list Z := fold_left clear_bit_at locs data.
 
+
+(* ---- sum() of a view (n_valid of a bit-packed map): edge bytes unpacked, masked outside the view and
+   summed; middle bytes through the SWAR table ---- *)
+(* np.sum of the unpacked byte after masking everything outside bits [lo, hi) *)
+Definition masked_count (b lo hi : Z) : Z := zcount (Z.testbit b) (zrange lo hi).
+
+Definition mid_sum (data : list Z) (lo hi : Z) : Z :=
+  fold_left (fun acc j => acc + lut_entry (znth 0 data j)) (zrange lo hi) 0.
+
+Definition sum_view (v : pview) (data : list Z) : Z :=
+  let d := extract_fml v in
+  let nd := vndata v in
+  (if f_lo d <? f_hi d then masked_count (znth 0 data 0) (f_lo d) (f_hi d) else 0) +
+  (if l_lo d <? l_hi d then masked_count (znth 0 data (nd - 1)) (l_lo d) (l_hi d) else 0) +
+  mid_sum data (m_lo d) (m_hi d).
+
